@@ -563,7 +563,7 @@ func main() {
 	}
 
 	total := sp.QuickRuns
-	recheck := 0
+	recheck := 200 // re-execute every 200th run in the same process and compare signatures
 	enum := sp.EnumQuick
 	if *tier == "thorough" {
 		total = sp.ThoroughRuns
